@@ -36,7 +36,7 @@ def run(ctx):
     ]
     roots = C17.role_roots(F)
     thread_roots = set(roots.get("session", ())) | set(roots.get("timer", ())) | set(roots.get("http", ())) | set(roots.get("tokio", ()))
-    ctx.floor("R12.1", "platform thread roots", len(thread_roots), 4)
+    ctx.floor("R12.1", "platform thread roots", len(thread_roots), {"default": 4, "minimal": 2, "all": 4})   # minimal: no HTTP processor
     seen = panics.region(F, thread_roots, stop=c12_stop)
     c11 = set(panics.region(F, C11.c11_roots(cg), stop=C11.c11_stop).keys())
     nodes = set(seen.keys()) - c11
@@ -44,8 +44,8 @@ def run(ctx):
     ctx.extra["region_functions"] = len(bodies)
     ctx.extra["region_functions_covered_by_C11"] = len(set(seen.keys()) & c11)
     ctx.extra["panic_capable_edges"] = len(edges)
-    ctx.floor("R12.1", "functions reachable from the platform threads", len(bodies), 250)
-    ctx.floor("R12.1", "panic-capable edges examined", len(edges), 100)
+    ctx.floor("R12.1", "functions reachable from the platform threads", len(bodies), {"default": 250, "minimal": 200, "all": 250})
+    ctx.floor("R12.1", "panic-capable edges examined", len(edges), {"default": 100, "minimal": 95, "all": 100})
 
     # ---------------------------------------------------------------- R12.1
     ctx.rule("R12.1", "every panic-capable edge reachable from a platform thread is a recognised harmless class (lock poison, counter increment), "
@@ -235,6 +235,13 @@ EVAL_APIS = ("get_expression_alternative_value", "get_by_location", "execute", "
 def is_evaluation_error_exit(fn, node):
     """node sits in the Err arm of a match on the result of an expression-evaluation API."""
     for g in hirq.guards(fn, node):
+        if g["how"] == "let-else":
+            # `let Ok(v) = api(..) else { <node> }`
+            p = g["cond"]["pat"]
+            if p.get("k") in ("pts", "pstruct") and p["r"].get("p", "").endswith("::Ok"):
+                e = hirq.resolve(fn, g["cond"]["init"], NO_T)
+                if e.get("k") in ("call", "mcall") and e.get("p") and e["p"].split("::")[-1] in EVAL_APIS:
+                    return True
         if g["how"] == "arm":
             p = g["pat"]
             if p.get("k") in ("pts", "pstruct") and p["r"].get("p", "").endswith("::Err"):
